@@ -112,17 +112,19 @@ def const_bits(v):
 
 
 def decode_candidates(cpu, isa, mode, per_mn):
-    """instructions that decode and execute on an empty mapper, <= per_mn distinct per (hook, mnemonic)"""
+    """instructions that decode and execute on an empty mapper: per (spec, mnemonic) up to
+    `per_mn` encodings spread evenly over the spec-driven enumeration (first and last included)"""
     from amoco.cas.mapper import mapper
     d = cpu.disassemble
     S = isas.flatten(d.specs[d.iset()])
     e = d.endian()
     out = []
     seenb = set()
+    CAP = 48
     for s in S:
         if s.pfx is True:
             continue
-        count = {}
+        pool = {}
         for b in specwords.cases_for_spec(isa, s, e, d.maxlen, "quick"):
             if not b or b in seenb:
                 continue
@@ -139,7 +141,7 @@ def decode_candidates(cpu, isa, mode, per_mn):
             if bb in seenb:
                 continue
             key = str(i.mnemonic)
-            if count.get(key, 0) >= per_mn:
+            if len(pool.get(key, ())) >= CAP:
                 continue
             try:
                 m = mapper()
@@ -149,12 +151,18 @@ def decode_candidates(cpu, isa, mode, per_mn):
             if len(m) == 0:
                 continue   # no semantics (logged 'not implemented'): nothing to compare
             seenb.add(bb)
-            count[key] = count.get(key, 0) + 1
             locs = [l for l, v in m]
             fp = tuple(sorted(set(
                 ("mem" if l._is_ptr else ("pc" if (l.etype & 0x10) else ("flag" if (l.etype & 0x20) else "reg"))) for l in locs)))
             reads_mem = any("M" in str(v) and "(" in str(v) for l, v in m)
-            out.append((bb.hex(), key, fp + (("rdmem",) if reads_mem else ())))
+            pool.setdefault(key, []).append((bb.hex(), key, fp + (("rdmem",) if reads_mem else ())))
+        for key in sorted(pool):
+            L = pool[key]
+            if len(L) <= per_mn:
+                out.extend(L)
+            else:
+                idx = sorted(set(round(k * (len(L) - 1) / (per_mn - 1)) for k in range(per_mn))) if per_mn > 1 else [0]
+                out.extend(L[k] for k in idx)
     return out
 
 
